@@ -5,6 +5,8 @@ component `s_mdwire` (C09), one real RPC per op (see harness/synct/c_mdwire_test
 
     rpc|probe|probeae <path> <md> <added> <hapi> <hmd> <tapi> <tmd> <code>
     → st=<ok|code> in=<md|!> hdr=<md> trl=<md> h=<…> t=<…> ae=<hex|->
+    pool <i> <md>                          → ok      (a long-lived metadata.MD object of the handler)
+    rpcm <path> <hcalls> <tcalls> <code>   → …same… pool=<objects after the RPC>
 
 `ae` is the grpc-accept-encoding value the client transport of THIS harness binary sends (the
 compressors registered in the process; other components of the merged binary register some). It
@@ -233,11 +235,127 @@ def monitor (o : Op) (impl : String) : String :=
           else "ok"
     | _, _, _ => "VIOL unparsable metadata in harness output"
 
-def step : Step Unit := fun _ fs impl =>
-  match parseOp fs with
-  | none => ((), "bad-op", "-")
-  | some o => ((), if asciiKeys o then (model o (aeOf impl)).show else "*", monitor o impl)
+/-! ### long-lived metadata objects, several header / trailer calls per RPC (`pool`, `rpcm`) -/
 
-def run : IO Unit := Driver.run () step
+/-- the component's long-lived MD objects: index ↦ content. In the model they can only change by a
+    `pool` op: no server API ever writes to a handler's metadata value. -/
+abbrev Pool := List (Nat × MD)
+
+def poolGet (p : Pool) (i : Nat) : Option MD := (p.find? (·.1 = i)).map (·.2)
+def poolSet (p : Pool) (i : Nat) (md : MD) : Pool := (p.filter (·.1 ≠ i)) ++ [(i, md)]
+
+def showPool (p : Pool) : String :=
+  let n := p.foldl (fun a e => max a (e.1 + 1)) 0
+  if n = 0 then "-" else
+  "/".intercalate ((List.range n).map fun i => match poolGet p i with
+    | some md => showMD md
+    | none => "?")
+
+def parseRef (p : Pool) (s : String) : Option MD :=
+  if s.startsWith "p" then (s.drop 1).toString.toNat? >>= poolGet p
+  else if s.startsWith "l" then parseMD (s.drop 1).toString
+  else none
+
+def parseCalls (p : Pool) (s : String) : Option (List (String × MD)) :=
+  if s = "-" then some [] else
+  (s.splitOn "|").mapM fun c =>
+    match c.splitOn "@" with
+    | [api, ref] => do pure (api, ← parseRef p ref)
+    | _ => none
+
+def hdrApiOf (s : String) : Option HdrApi :=
+  match s with
+  | "ss.set" => some .ssSet
+  | "ss.send" => some .ssSend
+  | "ctx.set" => some .ctxSet
+  | "ctx.send" => some .ctxSend
+  | _ => none
+
+def showRes (l : List String) : String := if l.isEmpty then "-" else ",".intercalate l
+
+/-- `rpcm` on the model. -/
+def modelM (pool : Pool) (path : String) (hcalls tcalls : List (String × MD)) (code : Nat) (ae : Bytes) : String :=
+  let cfg : CallCfg := { cfg0 with acceptEncoding := ae }
+  let isStream := path ≠ "u"
+  let inS := match clientSend cfg [] [] with
+    | some fields => (match serverRecv fields with
+      | .handler m => showMD m
+      | _ => "!")
+    | none => "!"
+  let (hst, hres) : HdrState × List String := hcalls.foldl (fun (acc : HdrState × List String) c =>
+    match hdrApiOf c.1 with
+    | none => (acc.1, acc.2 ++ ["badapi"])
+    | some api =>
+      if !isStream ∧ (api = .ssSet ∨ api = .ssSend) then (acc.1, acc.2 ++ ["nostream"])
+      else
+        let (st', r) := hdrCall acc.1 api c.2
+        (st', acc.2 ++ [match r with
+          | none => "ok"
+          | some k => toString k])) ({}, [])
+  let (trailer, tres) : MD × List String := tcalls.foldl (fun (acc : MD × List String) c =>
+    if c.1 = "ss.set" then (if isStream then (trlCall acc.1 c.2, acc.2 ++ ["ok"]) else (acc.1, acc.2 ++ ["nostream"]))
+    else if c.1 = "ctx.set" then (trlCall acc.1 c.2, acc.2 ++ ["ok"])
+    else (acc.1, acc.2 ++ ["badapi"])) ([], [])
+  let replies := path = "b1" ∨ (path = "u" ∧ code = 0)
+  let headerSent := hst.sent || decide replies || !hst.header.isEmpty
+  let st : Status := if code = 0 then ⟨0, [], []⟩ else ⟨code, [115], []⟩
+  let tail := s!" h={showRes hres} t={showRes tres} ae={hex ae} pool={showPool pool}"
+  let hdrRes : HdrRes := if headerSent then clientHeaders (headerFrame cfg.subtype hst.header) else .md []
+  match hdrRes with
+  | .fail c => s!"st={showCode c} in={inS} hdr=- trl=-" ++ tail
+  | .md hm =>
+    let tf := writeStatus headerSent cfg.subtype st trailer
+    if !wireOK tf then s!"st=13 in={inS} hdr={showMD hm} trl=-" ++ tail
+    else
+      let (e, tm) := clientTrailers (!headerSent) tf
+      s!"st={showCode e.code} in={inS} hdr={showMD hm} trl={showMD tm}" ++ tail
+
+def tokenOf (impl key : String) : String :=
+  match (impl.splitOn " ").find? (·.startsWith (key ++ "=")) with
+  | some t => (t.drop (key.length + 1)).toString
+  | none => "?"
+
+/-- C09, server → client clause, for a handler that makes several calls, possibly with metadata
+    objects it keeps using: the client must see, per key, exactly the values of the calls that
+    succeeded, in call order — nothing from an earlier RPC, nothing twice. Judged when every
+    metadata value involved is valid (the statement's domain). -/
+def monitorM (path : String) (hcalls tcalls : List (String × MD)) (code : Nat) (impl : String) : String :=
+  let st := tokenOf impl "st"
+  if tokenOf impl "in" = "!" then s!"VIOL no client metadata but the handler never ran (st={st})" else
+  if !(hcalls.all fun c => validate c.2) || !(tcalls.all fun c => validate c.2) then "ok" else
+  let hres := (tokenOf impl "h").splitOn ","
+  let tres := (tokenOf impl "t").splitOn ","
+  let okH := (hcalls.zip hres).filter (fun p => p.2 = "ok") |>.map (·.1.2)
+  let okT := (tcalls.zip tres).filter (fun p => p.2 = "ok") |>.map (·.1.2)
+  let expH := userVisible (okH.foldl mdJoin [])
+  let expT := userVisible (okT.foldl mdJoin [])
+  match parseMD (tokenOf impl "hdr"), parseMD (tokenOf impl "trl") with
+  | some hdr, some trl =>
+    if st ≠ showCode code ∧ !(okT.any fun m => hasKey m hDetailsBin) then s!"VIOL status {st} instead of {showCode code} with valid metadata"
+    else if showMD (dropKey hdr hContentType) ≠ showMD expH then
+      s!"VIOL client Header() {showMD (dropKey hdr hContentType)} but the server set {showMD expH}"
+    else if showMD (dropKey trl hContentType) ≠ showMD expT then
+      s!"VIOL client Trailer() {showMD (dropKey trl hContentType)} but the server set {showMD expT}"
+    else "ok"
+  | _, _ => "VIOL unparsable metadata in harness output"
+
+def step : Step Pool := fun pool fs impl =>
+  match fs with
+  | ["pool", i, md] =>
+    match i.toNat?, parseMD md with
+    | some i, some m => (poolSet pool i m, "ok", "-")
+    | _, _ => (pool, "bad-op", "-")
+  | ["rpcm", path, hc, tc, code] =>
+    match parseCalls pool hc, parseCalls pool tc, code.toNat? with
+    | some h, some t, some c =>
+      if ["u", "b0", "b1"].contains path then (pool, modelM pool path h t c (aeOf impl), monitorM path h t c impl)
+      else (pool, "bad-op", "-")
+    | _, _, _ => (pool, "bad-op", "-")
+  | _ =>
+    match parseOp fs with
+    | none => (pool, "bad-op", "-")
+    | some o => (pool, if asciiKeys o then (model o (aeOf impl)).show else "*", monitor o impl)
+
+def run : IO Unit := Driver.run ([] : Pool) step
 
 end GrpcModel.Driver.S_mdwire
